@@ -56,6 +56,7 @@ type State struct {
 	headEnv map[int]map[string]*Val // loop ordinal -> locals at the head of the current iteration
 	headHeap map[int]map[string]string
 	dead   bool
+	frames []*inlFrame // inlined calls in progress (inline.go)
 }
 
 func (st *State) clone() *State {
@@ -116,6 +117,7 @@ func (st *State) clone() *State {
 		}
 	}
 	n.path = append([]string(nil), st.path...)
+	n.frames = append([]*inlFrame(nil), st.frames...)
 	return n
 }
 
@@ -537,6 +539,17 @@ func (E *Engine) oblige(st *State, kind, site, goal, pretty, pos string, cl *Cla
 	if E.dry > 0 || st.dead || (E.relSilence && kind != "relational") {
 		return
 	}
+	if len(st.frames) > 0 && assumedInInline(kind) {
+		// inside a helper executed in place (inline.go): its intrinsic safety is assumed
+		st.assume(goal)
+		return
+	}
+	if E.fragment && kind != "captured" {
+		// the enclosing function is not under verification here: its own obligations are
+		// assumed to hold on the way to the closure creation
+		st.assume(goal)
+		return
+	}
 	c := E.cur
 	if E.Quick && isSlow(cl) {
 		// proved in the thorough tier only (see isSlow)
@@ -627,6 +640,9 @@ func (E *Engine) cover(st *State, site, what, pos string) {
 // coverWith: the path condition together with extra is satisfiable.
 func (E *Engine) coverWith(st *State, site, what, pos, extra string) {
 	if E.dry > 0 || st.dead || E.relSilence {
+		return
+	}
+	if E.fragment && !strings.HasPrefix(site, "captured") {
 		return
 	}
 	c := E.cur
